@@ -62,6 +62,22 @@ def edge_files(r):
     out.append(L.Bf3File({"a": "1", "b": "2"}, [L.mk_comp({3: b"\x03", 1: b"\x01", 2: b"\x02"}, b"\xff" * 5, 3),
                                                  L.mk_comp({2: b"", 9: b"zz"}, b"\x00" * 16), L.mk_comp({}, b"\x00")]))
     out.append(L.Bf3File({"b": "2", "a": "1"}, []))
+    # the SAME component object listed twice (and with another one between): two entries, two payloads
+    c = L.mk_comp({0x21: b"twice"}, bytes(range(1, 23)))
+    out.append(L.Bf3File({}, [c, c]))
+    out.append(L.Bf3File({}, [c, L.mk_comp({}, b"\x07\x08"), c]))
+    ce = L.mk_comp({0xC3: b"\x03", 0xC2: b"\x02"}, bytes(range(1, 20)), 19, True)
+    out.append(L.Bf3File({}, [ce, L.mk_comp({}, b"\x09"), ce]))
+    # descriptions and comments given as mappings of another type than dict, in non-ascending insertion order
+    import collections
+    class _D(dict):
+        pass
+    for mk in (collections.OrderedDict, _D, lambda items: collections.defaultdict(bytes, items)):
+        comp = L.mk_comp({}, b"\x01\x02\x03")
+        comp.description = mk([(0x30, b"c"), (0x10, b"a"), (0x20, b"b")])
+        out.append(L.Bf3File({"z": "1", "a": "2"}, [comp]))
+    for mk in (collections.OrderedDict, _D):
+        out.append(L.Bf3File(mk([("z", "1"), ("m", "3"), ("a", "2")]), [L.mk_comp({5: b"x", 3: b"y"}, b"\x01")]))
     out.append(L.Bf3File({"": "", " k ": "v:w", "ä€": "Ж x"}, [L.mk_comp({}, b"\x01")]))
     return out
 
@@ -113,6 +129,7 @@ def run(tier):
         # --- C->S
         for f in edge_files(r):
             key = L.gen_key(r)
+            L.rec_to_binary(rec, f, 5, key)
             text = L.rec_write(rec, f, key, False, wd)
             L.rec_read(rec, text, key, True, False, wd, auth=rec.last_written)
         skipped = gen_events(rec, r, 120 if tier == "quick" else 3000, wd, rep)
